@@ -87,6 +87,12 @@ type Corpus struct {
 	// Runtime is the repo module whose generator produced it ("v2"/"root").
 	Runtime string
 	OutDir  string
+	// Failure is set when generation or type-checking failed.
+	Failure string
+	// Failing marks manifests kept under corpus/v2/failing (recorded generator defects).
+	Failing bool
+	// SecondRunDiff names the first file that differed between two generator runs.
+	SecondRunDiff string
 }
 
 func (c *Ctx) add(v Verdict, pkg, fn, construct string, pos token.Pos, detail string) {
